@@ -1,2 +1,10 @@
+from tdpkg.docs import docs_init_function
+from tdpkg.tests import FixtureInInit, make_fixture
+
+
 def core_function(a: int) -> int:
-    return a
+    return a + make_fixture()
+
+
+def uses_docs() -> str:
+    return docs_init_function()
